@@ -94,7 +94,13 @@ STUB_NOTES = [
 @contextlib.contextmanager
 def prng_stubs(only=None):
     saved = {}
-    for mod in (jax.random, jsr):
+    mods = [jax.random, jsr]
+    try:  # JAX >= 0.11: the samplers live in jax._src.random.core; internal calls (categorical -> gumbel) resolve there
+        import jax._src.random.core as jsrc
+        mods.append(jsrc)
+    except ImportError:
+        pass
+    for mod in mods:
         for n, f in TABLE.items():
             if only is not None and n not in only:
                 continue
